@@ -8,9 +8,9 @@ use reftex::liang::{self, ascii_lc, Liang, EDGE};
 
 // ---------------------------------------------------------------- a lower-case map beyond ASCII
 
-/// Letters of the mixed alphabet: 1-, 2-, 2- and 4-byte UTF-8, each with an upper-case partner.
-const MIXED_LOWER: [char; 4] = ['a', 'é', 'α', '𝐚'];
-const MIXED_UPPER: [char; 4] = ['A', 'É', 'Α', '𝐀'];
+/// Letters of the mixed alphabet: 1-, 2-, 3- and 4-byte UTF-8, each with an upper-case partner.
+const MIXED_LOWER: [char; 4] = ['a', 'é', 'ḁ', '𝐚'];
+const MIXED_UPPER: [char; 4] = ['A', 'É', 'Ḁ', '𝐀'];
 
 /// The model's lower-case map: ASCII letters as `hyphenate::AsciiLowerCaser`, plus the mixed alphabet.
 fn lc_all(c: char) -> Option<char> {
@@ -54,7 +54,7 @@ impl Config {
     fn json(&self, word: &str) -> Value {
         json!({"kind": "lookup", "patterns": self.patterns, "exceptions": self.exceptions, "exceptions_first": self.exceptions_first, "mixed_alphabet": self.mixed, "word": word,
                "reproduce": format!("let mut h = hyphenate::Hyphenator::default(); {} h.calculate_indices(&{}, {:?}).collect::<Vec<_>>()",
-                    self.build_text(), if self.mixed { "L /* a LowerCaser with a/A, é/É, α/Α, 𝐚/𝐀 */" } else { "hyphenate::AsciiLowerCaser::default()" }, word)})
+                    self.build_text(), if self.mixed { "L /* a LowerCaser with a/A, é/É, ḁ/Ḁ, 𝐚/𝐀 */" } else { "hyphenate::AsciiLowerCaser::default()" }, word)})
     }
     fn build_text(&self) -> String {
         let p = format!("h.load_patterns({:?});", self.patterns.join(" "));
@@ -74,15 +74,28 @@ impl Config {
         }
         // one call per pattern and one call with the whole set must mean the same; alternate by size
         if self.patterns.len() % 2 == 0 {
-            h.load_patterns(&self.patterns.join(" "));
+            // any white space separates patterns; leading/trailing white space and a missing final newline are harmless
+            let v = self.patterns.iter().map(|p| p.len()).sum::<usize>() % 4;
+            let text = match v {
+                0 => self.patterns.join(" "),
+                1 => format!("{}\n", self.patterns.join("\n")),
+                2 => format!("  {} ", self.patterns.join(" \t ")),
+                _ => format!("\n{}", self.patterns.join("\r\n")),
+            };
+            h.load_patterns(&text);
         } else {
             for p in &self.patterns {
                 h.load_patterns(p);
             }
         }
         if !self.exceptions_first {
-            for e in &self.exceptions {
-                h.insert_exception(e);
+            if self.exceptions.len() == 2 && self.exceptions[0].len() % 2 == 0 {
+                // the list API: one entry per line, blank lines, CR LF and surrounding blanks allowed
+                h.insert_exceptions(&format!("\n {} \r\n\n{}", self.exceptions[0], self.exceptions[1]));
+            } else {
+                for e in &self.exceptions {
+                    h.insert_exception(e);
+                }
             }
         }
         h
@@ -468,7 +481,7 @@ fn exception_menu_over(letters: &[char], lo: usize, hi: usize) -> Vec<String> {
 fn words_around(entry: &str) -> Vec<(Vec<char>, Vec<String>)> {
     let w: Vec<char> = entry.chars().filter(|c| *c != '-').filter_map(lc_all).collect();
     let mut out = vec![(w.clone(), case_variants(&w, true))];
-    let extras = if w.iter().all(|c| c.is_ascii()) { ['a', 'b'] } else { ['a', 'é'] };
+    let extras = if w.iter().all(|c| c.is_ascii()) { ['a', 'b'] } else { ['a', 'ḁ'] };
     for extra in extras {
         let mut x = w.clone();
         x.push(extra);
@@ -545,7 +558,7 @@ const NONE: Option<u8> = None;
 
 fn main() {
     let mut ctx = Ctx::new("C13", Level::Exploration);
-    ctx.assume("lower-case maps explored: hyphenate::AsciiLowerCaser on ASCII letters, and one harness LowerCaser that adds the letters é/É, α/Α (2 bytes) and 𝐚/𝐀 (4 bytes); patterns and exception entries are written in lower case (an upper-case letter in an entry is finding D11c)");
+    ctx.assume("lower-case maps explored: hyphenate::AsciiLowerCaser on ASCII letters, and one harness LowerCaser that adds the letters é/É (2 bytes), ḁ/Ḁ (3 bytes) and 𝐚/𝐀 (4 bytes); patterns and exception entries are written in lower case (an upper-case letter in an entry is finding D11c)");
     ctx.assume("pattern sets with two patterns on the same (anchored) letter string are outside the domain: TeX §963 rejects the second as \"Duplicate pattern\" (skipped and counted)");
     ctx.assume("patterns are well formed in the sense of TeX §962: letters, at most one digit per slot, \".\" only at the ends, no digit outside the dots; words contain letters only (a string with a non-letter is never a word, TeX §897)");
     ctx.assume("an exception entry with a leading or trailing hyphen is legal and the hyphen has no effect (TeX §938 records position 0 / n, §923 clears them)");
@@ -704,7 +717,7 @@ fn main() {
     // F6: long patterns: the 16-zero run encoding of the op stream, words up to 40 letters
     {
         let mut pats: Vec<String> = vec![];
-        let lens: Vec<usize> = ctx.pick(vec![14, 15, 16, 17, 18, 30, 31, 32, 33, 34], (1..=50).chain([60, 61, 62, 63]).collect());
+        let lens: Vec<usize> = ctx.pick(vec![14, 15, 16, 17, 18, 30, 31, 32, 33, 34, 47, 48, 49], (1..=50).chain([60, 61, 62, 63]).collect());
         for &l in &lens {
             for anchors in 0..4u32 {
                 // TeX §962 counts the dots among the 63 letters of a pattern
@@ -731,9 +744,12 @@ fn main() {
         }
         let maxw = ctx.pick(40usize, 64);
         let mut words: Vec<(Vec<char>, Vec<String>)> = vec![];
-        for n in 1..=maxw {
+        // (the empty string and the lengths around TeX's 63-letter word limit are boundary members)
+        for n in (0..=maxw).chain(62..=66) {
             let wl = vec!['a'; n];
-            words.push((wl.clone(), case_variants(&wl, false)));
+            if !words.iter().any(|(w, _)| *w == wl) {
+                words.push((wl.clone(), case_variants(&wl, false)));
+            }
         }
         // a 'b' inside the run breaks every match that covers it
         for n in [16usize, 17, 33, 40] {
@@ -744,7 +760,7 @@ fn main() {
             }
         }
         let (pats, words) = (&pats, &words);
-        ctx.family("long-patterns", &format!("{} patterns a^L for L in {:?}: anchors x a digit from {{1,8,9}} in each single slot, at both ends, in the last two slots, and (L in 15,16,17,31,32,33) every pair of slots x words a^n, A^n, AaAa.. for n = 1..{maxw} and runs broken by one b", pats.len(), if lens.len() > 12 { vec![lens[0], *lens.last().unwrap()] } else { lens.clone() }), pats.len() as u64, |i, acc| {
+        ctx.family("long-patterns", &format!("{} patterns a^L for L in {:?}: anchors x a digit from {{1,8,9}} in each single slot, at both ends, in the last two slots, and (L in 15,16,17,31,32,33) every pair of slots x words a^n, A^n, AaAa.. for n = 0..{maxw} and 62..66, and runs broken by one b", pats.len(), if lens.len() > 12 { vec![lens[0], *lens.last().unwrap()] } else { lens.clone() }), pats.len() as u64, |i, acc| {
             let cfg = Config { patterns: vec![pats[i as usize].clone()], ..Default::default() };
             let zero_run = {
                 let Ok(p) = liang::parse_pattern(&cfg.patterns[0], &ascii_lc) else {
@@ -855,19 +871,19 @@ fn main() {
         let words = words_over(&MIXED_LOWER, ctx.pick(4, 5));
         let nw: usize = words.iter().map(|w| w.1.len()).sum();
         let (u, words) = (&u, &words);
-        ctx.family("mixed-single-pattern", &format!("each of the {} patterns with 1..2 letters over {{a, é, α, 𝐚}} (1-, 2-, 2- and 4-byte letters), anchors, digits {{none,1,2,9}} x all {} words of length 1..{} over these letters and their upper-case partners {{A, É, Α, 𝐀}}, looked up with a harness LowerCaser", u.len(), nw, ctx.pick(4, 5)), u.len() as u64, |i, acc| {
+        ctx.family("mixed-single-pattern", &format!("each of the {} patterns with 1..2 letters over {{a, é, ḁ, 𝐚}} (1-, 2-, 3- and 4-byte letters), anchors, digits {{none,1,2,9}} x all {} words of length 1..{} over these letters and their upper-case partners {{A, É, Ḁ, 𝐀}}, looked up with a harness LowerCaser", u.len(), nw, ctx.pick(4, 5)), u.len() as u64, |i, acc| {
             let cfg = Config { patterns: vec![u[i as usize].clone()], mixed: true, ..Default::default() };
             check_config(i, &cfg, words, acc);
             if i % 997 == 5 {
                 acc.sample(i, || json!({"patterns": cfg.patterns}));
             }
         });
-        let three = [MIXED_LOWER[0], MIXED_LOWER[1], MIXED_LOWER[3]];
+        let three = [MIXED_LOWER[0], MIXED_LOWER[2], MIXED_LOWER[3]];
         let up = pattern_universe_over(&three, 2, &ctx.pick(vec![NONE, Some(1)], vec![NONE, Some(1), Some(2)]));
         let pwords = words_over(&three, ctx.pick(3, 4));
         let k = up.len() as u64;
         let (up, pwords) = (&up, &pwords);
-        ctx.family("mixed-pattern-pairs", &format!("every unordered pair from the {k} patterns with 1..2 letters over {{a, é, 𝐚}}, anchors, digits {} (index space {k}^2) x all words of length 1..{} over these letters in both cases", ctx.pick("{none,1}", "{none,1,2}"), ctx.pick(3, 4)), k * k, |idx, acc| {
+        ctx.family("mixed-pattern-pairs", &format!("every unordered pair from the {k} patterns with 1..2 letters over {{a, ḁ, 𝐚}}, anchors, digits {} (index space {k}^2) x all words of length 1..{} over these letters in both cases", ctx.pick("{none,1}", "{none,1,2}"), ctx.pick(3, 4)), k * k, |idx, acc| {
             let (i, j) = (idx / k, idx % k);
             if j <= i {
                 return;
@@ -881,13 +897,102 @@ fn main() {
         let around: Vec<Vec<(Vec<char>, Vec<String>)>> = ex.iter().map(|e| words_around(e)).collect();
         let (nu, ne) = (ue.len() as u64, ex.len() as u64);
         let (ue, ex, around) = (&ue, &ex, &around);
-        ctx.family("mixed-exception-vs-pattern", &format!("(no pattern or one of the {} patterns with 1..2 letters over {{a, é, 𝐚}}, digits {{none,1,2,9}}) x one of the {ne} exception entries of length 2..3 over these letters with every hyphen placement x the entry's word in every case and its neighbours", nu - 1), nu * ne, |idx, acc| {
+        ctx.family("mixed-exception-vs-pattern", &format!("(no pattern or one of the {} patterns with 1..2 letters over {{a, ḁ, 𝐚}}, digits {{none,1,2,9}}) x one of the {ne} exception entries of length 2..3 over these letters with every hyphen placement x the entry's word in every case and its neighbours", nu - 1), nu * ne, |idx, acc| {
             let (pi, ei) = ((idx / ne) as usize, (idx % ne) as usize);
             let cfg = Config { patterns: if ue[pi].is_empty() { vec![] } else { vec![ue[pi].clone()] }, exceptions: vec![ex[ei].clone()], exceptions_first: false, mixed: true };
             check_config(idx, &cfg, &around[ei], acc);
         });
     }
 
+    // F10: boundary members found by going through the numeric literals of the anchored source
+    {
+        // exception scores are 6/7: pattern digits on both sides of them
+        let mut u = vec![String::new()];
+        u.extend(pattern_universe(2, &[NONE, Some(5), Some(6), Some(7), Some(8)]));
+        let ex = exception_menu(2, 3);
+        let around: Vec<Vec<(Vec<char>, Vec<String>)>> = ex.iter().map(|e| words_around(e)).collect();
+        let (nu, ne) = (u.len() as u64, ex.len() as u64);
+        let (u, ex, around) = (&u, &ex, &around);
+        ctx.family("exception-vs-digits-5-to-8", &format!("(no pattern or one of the {} patterns with 1..2 letters, digits {{none,5,6,7,8}}: both sides of the scores 6/7 under which exceptions are stored) x {ne} exception entries of length 2..3 x the entry's word in every case and its neighbours", nu - 1), nu * ne, |idx, acc| {
+            let (pi, ei) = ((idx / ne) as usize, (idx % ne) as usize);
+            let cfg = Config { patterns: if u[pi].is_empty() { vec![] } else { vec![u[pi].clone()] }, exceptions: vec![ex[ei].clone()], exceptions_first: false, mixed: false };
+            if u[pi].contains('6') || u[pi].contains('7') {
+                acc.count("exception_against_pattern_digit_6_or_7");
+            }
+            check_config(idx, &cfg, &around[ei], acc);
+        });
+        // nothing loaded at all, the empty word, entries TeX ignores (fewer than two letters)
+        let configs: Vec<Config> = vec![
+            Config::default(),
+            Config { patterns: vec!["a1".into()], ..Default::default() },
+            Config { patterns: vec!["1a".into(), ".a1".into(), "a1.".into()], ..Default::default() },
+            Config { exceptions: vec!["".into()], ..Default::default() },
+            Config { exceptions: vec!["-".into()], ..Default::default() },
+            Config { exceptions: vec!["a".into()], patterns: vec!["1a1".into()], ..Default::default() },
+            Config { exceptions: vec!["a-".into(), "-a".into()], patterns: vec!["1a1".into()], ..Default::default() },
+            Config { exceptions: vec!["".into()], patterns: vec!["1a1".into()], exceptions_first: true, mixed: false },
+            Config { patterns: vec!["é1".into()], mixed: true, ..Default::default() },
+        ];
+        let words: Vec<(Vec<char>, Vec<String>)> = ["", "a", "aa", "aaa", "é", "éa"].iter().map(|w| (w.chars().collect::<Vec<char>>(), case_variants(&w.chars().collect::<Vec<char>>(), true))).collect();
+        let (configs, words) = (&configs, &words);
+        ctx.family("degenerate", "9 configurations (nothing loaded; only anchored/unanchored one-letter patterns; exception entries with 0 or 1 letter or only a hyphen, which TeX §939 ignores) x the words '', a, aa, aaa, é, éa in every case", configs.len() as u64, |i, acc| {
+            let cfg = &configs[i as usize];
+            let ws: Vec<(Vec<char>, Vec<String>)> = words.iter().filter(|(w, _)| cfg.mixed || w.iter().all(|c| c.is_ascii())).cloned().collect();
+            acc.count_n("empty_word_looked_up", 1);
+            if cfg.patterns.is_empty() && cfg.exceptions.is_empty() {
+                acc.count("lookup_with_nothing_loaded");
+            }
+            check_config(i, cfg, &ws, acc);
+        });
+        // the 16-zero run with letters of more than one byte
+        let mut pats: Vec<String> = vec![];
+        for l in [15usize, 16, 17, 32] {
+            for letter in ['é', 'ḁ', '𝐚'] {
+                for anchors in 0..4u32 {
+                    for slot in [0, 1, l - 1, l] {
+                        let mut p = String::new();
+                        if anchors & 1 == 1 {
+                            p.push('.');
+                        }
+                        for i in 0..=l {
+                            if i == slot {
+                                p.push('1');
+                            }
+                            if i < l {
+                                p.push(letter);
+                            }
+                        }
+                        if anchors & 2 == 2 {
+                            p.push('.');
+                        }
+                        pats.push(p);
+                    }
+                }
+            }
+        }
+        let mut words: Vec<(Vec<char>, Vec<String>)> = vec![];
+        for letter in ['é', 'ḁ', '𝐚'] {
+            for n in [1usize, 14, 15, 16, 17, 18, 31, 32, 33, 34, 40] {
+                let wl = vec![letter; n];
+                words.push((wl.clone(), case_variants(&wl, false)));
+                let mut w2 = vec!['a'];
+                w2.extend(wl.iter());
+                words.push((w2.clone(), vec![w2.iter().collect()]));
+            }
+        }
+        let (pats, words) = (&pats, &words);
+        ctx.family("long-patterns-multibyte", &format!("{} patterns x^L for x in é, ḁ, 𝐚 and L in 15,16,17,32 with a digit in slot 0, 1, L-1 or L, anchors x words x^n and a x^n for n in 1,14..18,31..34,40 in lower, upper and alternating case", pats.len()), pats.len() as u64, |i, acc| {
+            let cfg = Config { patterns: vec![pats[i as usize].clone()], mixed: true, ..Default::default() };
+            acc.count("long_pattern_over_a_multibyte_letter");
+            check_config(i, &cfg, words, acc);
+        });
+    }
+
+    ctx.require("exception_against_pattern_digit_6_or_7", "an exception entry meets a pattern digit equal to the scores 6/7 under which exceptions are stored");
+    ctx.require("empty_word_looked_up", "the empty word is looked up");
+    ctx.require("lookup_with_nothing_loaded", "a hyphenator without any pattern or exception is asked");
+    ctx.require("long_pattern_over_a_multibyte_letter", "the 16-zero run encoding is exercised with letters of 2, 3 and 4 bytes");
+    ctx.require("hypthenate_string_route_checked", "Hyphenator::hypthenate is compared with the positions");
     ctx.require("pattern_starts_after_a_multibyte_letter", "a pattern not anchored at the start matches after a multi-byte letter and scores an interior slot");
     ctx.require("two_patterns_score_same_slot", "two patterns put a non-zero digit on the same slot of the word (the maximum decides)");
     ctx.require("even_digit_inhibits_odd", "an even maximum suppresses an odd digit of another pattern (or alignment)");
@@ -932,11 +1037,10 @@ fn check_plain(idx0: u64, plain: &Liang, patterns: &str, exceptions: &str, words
     PLAIN_REAL.with(|cell| {
         let mut slot = cell.borrow_mut();
         if slot.is_none() {
-            // built the way Hyphenator::plain_tex_en_us does, but from the files of VERIF_REPO
-            let mut h = Hyphenator::default();
-            h.load_patterns(patterns);
-            h.insert_exceptions(exceptions);
-            *slot = Some(h);
+            // the crate's own constructor (its include_str! files are the files of the tree the harness is
+            // built against, which the model reads from VERIF_REPO)
+            let _ = (patterns, exceptions);
+            *slot = Some(Hyphenator::plain_tex_en_us());
         }
         let real = slot.as_ref().unwrap();
         for (k, (wl, variants)) in words.iter().enumerate() {
@@ -967,6 +1071,27 @@ fn check_plain(idx0: u64, plain: &Liang, patterns: &str, exceptions: &str, words
                     Err(p) => acc.fail(idx, case(), format!("{want:?}"), p.describe(), "calculate_indices panicked"),
                     Ok(got) => {
                         let got = as_set(got, acc);
+                        if got == want {
+                            // the string route of the public API: Hyphenator::hypthenate
+                            let mut rendered = String::new();
+                            for (i, c) in w.chars().enumerate() {
+                                if want.contains(&i) {
+                                    rendered.push('-');
+                                }
+                                rendered.push(c);
+                            }
+                            let out = catch(|| {
+                                let mut o = String::new();
+                                real.hypthenate(&lc, w, &mut o);
+                                o
+                            });
+                            acc.count("hypthenate_string_route_checked");
+                            match out {
+                                Ok(o) if o == rendered => {}
+                                Ok(o) => acc.fail(idx, case(), rendered, o, "Hyphenator::hypthenate does not put the hyphens at the positions of calculate_indices"),
+                                Err(p) => acc.fail(idx, case(), rendered, p.describe(), "Hyphenator::hypthenate panicked"),
+                            }
+                        }
                         if got != want {
                             if d11.as_ref() == Some(&got) {
                                 acc.known("D11", idx, || json!({"case": case(), "model": want, "observed": got}));
